@@ -9,6 +9,7 @@ exit 3  checker malfunction (traceback, solver disagreement, vacuity canary, eng
 import sys, os, json, time, argparse, subprocess, importlib, multiprocessing, traceback, hashlib, tempfile
 
 VERIF = os.path.dirname(os.path.dirname(os.path.abspath(__file__)))
+OUT = os.environ.get('PYVC_OUT', VERIF)      # where evidence/ and replays/ are written (a scratch directory for self-validation sub-runs)
 VENV_PY = '/venv/bin/python'
 TIERS = {
     'quick':    dict(z3_ms=10000, cvc5_ms=20000, both=False, twin_cases=150, twin_seconds=25),
@@ -226,8 +227,8 @@ def main(argv=None):
                 undecided.append((u.name, o['label'] + ' unknown'))
 
     # ---- concrete side: replays, witnesses, twins
-    os.makedirs(os.path.join(VERIF, 'replays'), exist_ok=True)
-    os.makedirs(os.path.join(VERIF, 'evidence'), exist_ok=True)
+    os.makedirs(os.path.join(OUT, 'replays'), exist_ok=True)
+    os.makedirs(os.path.join(OUT, 'evidence'), exist_ok=True)
     job = {'prop': prop, 'verif': VERIF, 'seed': seed, 'active_findings': sorted(F.ACTIVE), 'replays': [], 'witnesses': [],
            'twin_units': [u.name for u in _UNITS if u.level == 'property'], 'twin_cases': tier['twin_cases'], 'twin_seconds': tier['twin_seconds']}
     for u, o in refuted_prop:
@@ -254,11 +255,11 @@ def main(argv=None):
         rec = {'property': prop, 'unit': u.name, 'label': o['label'], 'obligation': full, 'inputs': o['model'], 'solver': o['solver'],
                'solver_secs': o['secs'], 'replay_result': rep}
         if rep.get('status') in ('ok', 'vacuous') and rep.get('evaluated') and rep.get('fails') and not (rep.get('fails_in_region') and o['meta'].get('finding') in F.ACTIVE):
-            json.dump(rec, open(os.path.join(VERIF, path), 'w'), indent=1)
+            json.dump(rec, open(os.path.join(OUT, path), 'w'), indent=1)
             violations.append((path, full, ''))
         elif full in baseline:
             rec['note'] = 'obligation was discharged on the unchanged tree and is now refuted; counter-model did not replay (ghost/havoc values)'
-            json.dump(rec, open(os.path.join(VERIF, path), 'w'), indent=1)
+            json.dump(rec, open(os.path.join(OUT, path), 'w'), indent=1)
             violations.append((path, full, ' no-failing-input-found'))
         else:
             undecided.append((u.name, o['label'] + ' refuted by the solver but the model does not replay on the real code (engine imprecision)'))
@@ -273,7 +274,7 @@ def main(argv=None):
                    'solver_output': 'z3: unknown; cvc5: unknown/unsupported (%s)' % (o.get('detail') or 'no model'),
                    'note': 'this obligation is on the committed list of obligations discharged on the unchanged tree and can no longer be discharged; '
                            'the solver produced no counter-model (uninterpreted folds / quantifiers), so there is no input to replay'},
-                  open(os.path.join(VERIF, path), 'w'), indent=1)
+                  open(os.path.join(OUT, path), 'w'), indent=1)
         violations.append((path, full, ' no-failing-input-found'))
     twin_cases = twin_eval = 0
     twin_report = []
@@ -286,7 +287,7 @@ def main(argv=None):
             full = '%s/%s' % (t['unit'], f['label'])
             path = os.path.join('replays', '%s-twin-%s.json' % (prop, hashlib.sha1((full + json.dumps(f['inputs'], sort_keys=True)).encode()).hexdigest()[:10]))
             json.dump({'property': prop, 'unit': t['unit'], 'label': f['label'], 'obligation': full, 'inputs': f['inputs'], 'found_by': 'executable twin'},
-                      open(os.path.join(VERIF, path), 'w'), indent=1)
+                      open(os.path.join(OUT, path), 'w'), indent=1)
             # a proved clause that fails concretely means the engine is unsound on this unit: checker malfunction
             proved = any(o['label'] == f['label'] and o['status'] == 'discharged' for i, r in res.items() if _UNITS[i].name == t['unit'] for o in r['obligations'])
             anyopen = any(o['label'] == f['label'] and o['status'] != 'discharged' for i, r in res.items() if _UNITS[i].name == t['unit'] for o in r['obligations'])
@@ -308,7 +309,7 @@ def main(argv=None):
                    'solver_output': '%s (%s)' % (o['status'], o.get('detail') or 'counter-model is over havoc-ed loop state, not over inputs'),
                    'note': 'loop invariant / helper obligation inside a property-level unit; discharged on the unchanged tree (baseline-obligations.txt), '
                            'not any more; the clauses of this unit were proved under it'},
-                  open(os.path.join(VERIF, path), 'w'), indent=1)
+                  open(os.path.join(OUT, path), 'w'), indent=1)
         violations.append((path, full, ' no-failing-input-found'))
     known_lines = []
     for k, w in zip(known, conc['witnesses']):
@@ -357,6 +358,11 @@ def main(argv=None):
                     if o['status'] != 'discharged':
                         print('     ', o['label'], o['status'], o['model'] if o['model'] and len(json.dumps(o['model'])) < 600 else '(model elided)')
         return 1 if violations else (3 if errors else 0)
+    selfval = self_validation(prop) if (a.tier == 'thorough' and not a.only) else {'ran': False, 'why': 'thorough tier only'}
+    for c in selfval.get('changes', []):
+        if not c['reported']:
+            errors.append(('self-validation', 'seeded change %s applied to a scratch copy of the unchanged tree was NOT reported by this check (exit %s)' % (c['id'], c['exit'])))
+    _SELFVAL[0] = selfval
     proved_all = (n_obl > 0 and n_dis == n_obl and not undecided and not errors)
     level = 'proof' if proved_all else 'other'
     if getattr(mod, 'LEVEL', None):
@@ -379,6 +385,45 @@ def load_baseline():
     if not os.path.exists(p):
         return set()
     return set(l.strip() for l in open(p) if l.strip() and not l.startswith('#'))
+
+
+_SELFVAL = [None]
+
+
+def self_validation(prop):
+    """thorough tier: every committed seeded change for this property (seeded/<prop>-*/patch.diff) is applied to a scratch copy of /repo
+    (outside /repo and /verif, removed at once) and the quick check is run against the copy: it must report a violation.  Only done when
+    /repo is the unchanged tree the baseline was taken from - on a changed tree the patches would be stacked on an unknown change."""
+    import glob, shutil
+    if os.environ.get('PYVC_REPO') or os.environ.get('PYVC_OUT'):
+        return {'ran': False, 'why': 'sub-run'}
+    try:
+        head = subprocess.run(['git', '-C', '/repo', 'rev-parse', '--short', 'HEAD'], capture_output=True, text=True).stdout.strip()
+        dirty = subprocess.run(['git', '-C', '/repo', 'status', '--porcelain', '--', 'pymodbus'], capture_output=True, text=True).stdout.strip()
+        base = open(os.path.join(VERIF, 'baseline-obligations.txt')).readline()
+    except Exception as e:
+        return {'ran': False, 'why': 'cannot inspect /repo: %s' % e}
+    if dirty or head not in base:
+        return {'ran': False, 'why': 'the tree under check is not the unchanged tree the baseline was taken from (HEAD %s%s): seeded changes are not stacked on it' % (head, ', uncommitted changes' if dirty else '')}
+    out = {'ran': True, 'changes': []}
+    for pf in sorted(glob.glob(os.path.join(VERIF, 'seeded', prop + '-*', 'patch.diff'))):
+        d = tempfile.mkdtemp(prefix='pyvc-sv-', dir='/var/tmp')
+        try:
+            shutil.copytree('/repo/pymodbus', os.path.join(d, 'pymodbus'))
+            ap = subprocess.run(['patch', '-p1', '-s', '-d', d, '-i', pf], capture_output=True, text=True)
+            if ap.returncode != 0:
+                out['changes'].append({'id': os.path.basename(os.path.dirname(pf)), 'reported': True, 'exit': None, 'note': 'patch did not apply: ' + ap.stdout[-200:]})
+                continue
+            env = dict(os.environ)
+            env['PYVC_REPO'], env['PYVC_OUT'] = d, os.path.join(d, 'out')
+            t = time.time()
+            r = subprocess.run([os.path.join(VERIF, 'check'), prop, '--tier', 'quick'], cwd=VERIF, env=env, capture_output=True, text=True, timeout=3600)
+            lines = [l for l in r.stdout.splitlines() if l.startswith('VIOLATION')]
+            out['changes'].append({'id': os.path.basename(os.path.dirname(pf)), 'reported': r.returncode == 1 and bool(lines), 'exit': r.returncode,
+                                   'first_violation': lines[0][:300] if lines else None, 'secs': round(time.time() - t, 1)})
+        finally:
+            shutil.rmtree(d, ignore_errors=True)
+    return out
 
 
 def run_concrete_side(job):
@@ -468,6 +513,7 @@ def write_evidence(prop, tier, seed, level, res, n_obl, n_dis, by_backend, solve
             'unknown_calls_havoced': sorted(unknown_calls),
             'known_findings_reproduced': known_lines,
             'vacuity': {'units_with_zero_obligations': [n for n, w in errors if 'vacuity' in w]},
+            'self_validation': _SELFVAL[0],
             'exhaustive': False,
         },
         'assumptions': ['A1 int = mathematical integers', 'A2 // and % exact (Euclidean div for positive divisors, floor otherwise)',
@@ -478,7 +524,7 @@ def write_evidence(prop, tier, seed, level, res, n_obl, n_dis, by_backend, solve
                         'effects of logging dropped (argument expressions still evaluated); __str__/__repr__ total and pure'] + getattr(mod, 'ASSUMPTIONS', []),
         'wall_s': round(wall, 2), 'violations': len(set(v[1] for v in violations)),
     }
-    json.dump(ev, open(os.path.join(VERIF, 'evidence', prop + '.json'), 'w'), indent=1)
+    json.dump(ev, open(os.path.join(OUT, 'evidence', prop + '.json'), 'w'), indent=1)
 
 
 if __name__ == '__main__':
